@@ -13,6 +13,12 @@ Definition dlgs_eqb_nounlock (d1 d2 : list dlg) : bool :=
   forallb (fun d => existsb (fun e => (d_id d =? d_id e) && (d_owner d =? d_owner e) && (d_name d =? d_name e) &&
                                       funds_eqb_nounlock (d_funds d) (d_funds e)) d2) d1.
 
+(* ... and identical records: the funds of every pool in the same order *)
+Definition dlgs_eqb_exact (d1 d2 : list dlg) : bool :=
+  (N.of_nat (length d1) =? N.of_nat (length d2)) &&
+  forallb (fun d => existsb (fun e => (d_id d =? d_id e) && (d_owner d =? d_owner e) && (d_name d =? d_name e) &&
+                                      list_eqb fund_eqb (d_funds d) (d_funds e)) d2) d1.
+
 Definition last_dump (h : hist) : option dump :=
   fold_left (fun acc op => match op with HDeliver _ _ _ (Some d) => Some d | _ => acc end) (h_ops h) None.
 
@@ -26,6 +32,7 @@ Definition anc_pf (cfg : config) (n0 n1 : node) (b : block) (now : N) (o : obs) 
 
 (* codes: 1 fresh node refused a block of the main chain, 2 tip differs, 3 accounts differ, 4 staked total differs,
    5 delegate records differ in more than unlock heights, 6 delegate records differ only in unlock heights,
+   9 delegate records differ only in the order of the funds of a pool,
    8 = code 1 in a history in which the implementation accepted a block with a wrong ancestor list (R13) *)
 Definition c03_hist (cfg : config) (h : hist) : N :=
   match h_fresh h, last_dump h with
@@ -36,7 +43,8 @@ Definition c03_hist (cfg : config) (h : hist) : N :=
         (3, accts_eqb (dp_accts f) (dp_accts d));
         (4, dp_staked f =? dp_staked d);
         (5, dlgs_eqb_nounlock (dp_dlgs f) (dp_dlgs d));
-        (6, dlgs_eqb (dp_dlgs f) (dp_dlgs d))] in
+        (6, dlgs_eqb (dp_dlgs f) (dp_dlgs d));
+        (9, dlgs_eqb_exact (dp_dlgs f) (dp_dlgs d))] in
       if (c =? 1) && negb (hist_prop cfg h (anc_pf cfg) =? 0) then 8 else c
   | _, _ => 0
   end.
